@@ -37,6 +37,29 @@ def cases_for(tier, rng, structure=False):
     return cases
 
 
+DESIGN_GUARDS = {
+    # config that has to FAIL -> the invariant that has to be reported
+    "C07": [("MC_IsoLayoutBad_modulo.cfg", "Content"), ("MC_IsoLayoutVacuityMulti.cfg", "NeverMulti")],
+    "C08": [("MC_IsoLayoutBad_straddle.cfg", "Structure"), ("MC_IsoLayoutBad_dotdot.cfg", "Structure"),
+            ("MC_IsoLayoutBad_sharedirs.cfg", "Structure"), ("MC_IsoLayoutVacuityPush.cfg", "NeverPush")],
+}
+
+
+def design(rep, specdir, tier, prop):
+    """Design level: the reference layout (spec/IsoLayout.tla) satisfies every clause real images are judged by, for all
+    small trees and the chosen wide ones; wrong schemes and "never exercised" claims are refuted (vacuity guards)."""
+    cfg = "MC_IsoLayout.cfg" if tier == "quick" else "MC_IsoLayoutThorough.cfg"
+    res = common.run_tlc(specdir, "MC_IsoLayout.tla", cfg, workers=common.WORKERS, timeout=7200, stack="1g")
+    common.tlc_must_pass(res, "MC_IsoLayout/" + cfg)
+    rep.add_tlc(res)
+    for gcfg, inv in DESIGN_GUARDS[prop]:
+        g = common.run_tlc(specdir, "MC_IsoLayout.tla", gcfg, workers=4, timeout=900, stack="1g")
+        if "Invariant %s is violated" % inv not in g.out:
+            raise common.CheckError("vacuity guard %s: TLC no longer refutes %s" % (gcfg, inv))
+    rep.notes.append("design: %s: %d layout cases satisfy all structure and content clauses; %d wrong-scheme / vacuity configs refuted"
+                     % (cfg, res.distinct, len(DESIGN_GUARDS[prop])))
+
+
 def run(tier, seed, replay=None, prop=PROP, cfg=CFG, extra_cases=None):
     rep = common.Report(prop, tier, seed, "model_checking")
     rng = random.Random(seed * 2750159 + 7)
@@ -53,6 +76,8 @@ def run(tier, seed, replay=None, prop=PROP, cfg=CFG, extra_cases=None):
             if extra_cases:
                 cases += extra_cases(tier, rng)
         srv.run_and_validate(ctx, cases, rep, module=mod, cfg=cfg, max_rejections=16)
+        if not replay:
+            design(rep, specdir, tier, prop)
         rep.cov["rule"] = ("directory trees (random small trees, depth 8, 40..300 entries, empty directories, sparse files of "
                            "4 GiB-2 KiB .. 9 GiB, PS3 mode) opened through the library (BasePathFs and OsFs); image decoded by the "
                            "fixed-offset reader; TLC evaluates the clauses; distinct_nontrivial = trees whose volume TLC accepted")
